@@ -866,3 +866,61 @@ theorem parsed_qualC {cfg : Config} {txt : String} {c : Circuit} (h : parseProgr
       (hn.macros m hm).2.2 (him m hm) (hsc.macros m hm)
 
 end Jaqal.PassText
+
+/-! ## `expand_subcircuits` keeps `QualC` -/
+
+namespace Jaqal.PassText
+open Jaqal Jaqal.Pipeline Jaqal.RoundTrip Jaqal.ExpandSubcircuits
+
+section
+variable {P : String → Prop} {S : List String} (p m : Stmt)
+
+mutual
+theorem spell_QS (hp : QS P S p) (hm : QS P S m) : ∀ (s : Stmt), QS P S s → QS P S (spell p m s)
+  | .gate n gd a, h => by simpa [spell] using h
+  | .loop c b, h => by
+    simp only [QS, spell] at h ⊢
+    exact spell_QS hp hm b h
+  | .block q true it bb, h => by
+    simp only [QS, spell, if_true] at h ⊢
+    rw [List.cons_append]
+    exact ⟨hp, QSL_append _ _ (spellList_QSL hp hm bb h) ⟨hm, trivial⟩⟩
+  | .block q false it bb, h => by
+    simp only [QS, spell, Bool.false_eq_true, if_false] at h ⊢
+    exact spellList_QSL hp hm bb h
+theorem spellList_QSL (hp : QS P S p) (hm : QS P S m) : ∀ (l : List Stmt), QSL P S l → QSL P S (spellList p m l)
+  | [], h => by simp only [spellList, QSL]
+  | s :: r, h => by
+    simp only [QSL, spellList] at h ⊢
+    exact ⟨spell_QS hp hm s h.1, spellList_QSL hp hm r h.2⟩
+end
+end
+
+theorem subs_qualC {c c' : Circuit} (hL : Passes.Legal c) (hq : QualC LegalName c)
+    (h : Passes.apply .subs c = .ok c') : QualC LegalName c' := by
+  have h' : expandSubcircuits none none c = .ok c' := h
+  obtain ⟨bs, hb⟩ := hL.wf2.body
+  have hbody := C09_shape_body hb h'
+  obtain ⟨hmac, _⟩ := C09_shape h'
+  have hP : ∀ S, QS LegalName S (prepStmt none c) := by
+    intro S; simp only [prepStmt, boundGate, QS]; intro a ha; cases ha
+  have hM : ∀ S, QS LegalName S (measStmt none c) := by
+    intro S; simp only [measStmt, boundGate, QS]; intro a ha; cases ha
+  refine ⟨?_, ?_⟩
+  · have := hq.body
+    rw [hb] at this
+    rw [hbody, hb]
+    exact spell_QS _ _ (hP _) (hM _) _ this
+  · rw [hmac]
+    intro x hx
+    simp only [List.mem_map] at hx
+    obtain ⟨mc, hmc, rfl⟩ := hx
+    have := hq.macros mc hmc
+    have hpar : (spellMacro (prepStmt none c) (measStmt none c) mc).params = mc.params := by
+      simp [spellMacro]
+    have hbd : (spellMacro (prepStmt none c) (measStmt none c) mc).body = spell (prepStmt none c) (measStmt none c) mc.body := by
+      simp [spellMacro]
+    rw [hpar, hbd]
+    exact spell_QS _ _ (hP _) (hM _) _ this
+
+end Jaqal.PassText
